@@ -7,7 +7,7 @@ VERIF = os.path.dirname(os.path.dirname(os.path.abspath(__file__)))
 ENGINES = [
     dict(name="periph", path="engines/periph", serves_properties=["C13", "C15", "C16"],
          kind_free_text="explicit-state BFS / exhaustive configuration enumeration over the real Timer, Btdmp, Dma+Ahbm objects with lock-step reference models"),
-    dict(name="sys", path="engines/sys", serves_properties=["C06", "C14"],
+    dict(name="sys", path="engines/sys", serves_properties=["C06", "C07", "C12", "C14"],
          kind_free_text="explicit-state BFS over the whole Teakra facade (host API + DSP-side MMIO) with snapshot/restore of the plain state and lock-step reference models"),
 ]
 
@@ -17,6 +17,14 @@ CLAIMED = {
             "For each of ~30k generated programs (idle/busy main lines, six handler kinds, timer modes/start values/routing, second timer, audio periods and fills, mailbox/semaphore/software-IRQ events at every cycle position) the real machine is run once per slicing and its complete observable state after every slice (registers incl. hidden banks, latches, timers, audio port, ICU, APBP, stack, ordered callback log) is compared with the single-step trace. The set of slicings is enumerated completely for 2 (and 3) slices, which is where an idle fast-forward bug has to show.",
             "Trusted: snapshot/restore of the plain machine state (MMIO cell backing words are never written with unmodelled bits), g++. Programs are limited to the generated family and n<=48 cycles; the idle flag internal to a Run call is not compared.",
             "DESIGN.md section 4, C06"),
+    "C07": ("sys", "explicit-state breadth-first search over the real ICU + interpreter + register file (snapshot/restore through the facade), reference interrupt model stepped in lock-step on every transition",
+            "Two layers: all event sequences up to the depth bound over the full alphabet (trigger, acknowledge and routing of every subset of an IRQ triple, ie/im/imv/ic/cpc writes, instruction boundaries of a fixed program with reti/retic/staying handlers and a rep main line), and the complete reachable state set of fixed routing/mask configurations over trigger/acknowledge/ie/step. After every event the projected real state (request, routing, latches, ip/im/ie, pc, sp, stack words, repeat state, banked im) must equal the model's, which encodes exactly-once delivery, priority, masking, rep blocking, pushed return address and acknowledge semantics. Plus the finite wiring check of the nine peripheral sources.",
+            "Trusted: the 150-line reference model (incl. a 5-instruction interpreter for the fixed program), snapshot/restore of registers/ICU/latches, g++. Nesting bounded at 2; IRQ alphabets of three indices per run (all 16 indices appear across runs).",
+            "DESIGN.md section 4, C07"),
+    "C12": ("sys", "exhaustive enumeration of write histories over all MMIO offsets x value alphabet x paths x prefixes on the real MMIORegion, checked against a documented field/coupling table after every write (read-all before and after)",
+            "Every even offset is written with 20 values through both paths from 7 prefixes; the complete register image is read before and after every write, so read-back of documented RW fields and absence of undocumented aliasing are decided for every (state, offset, value) visited, not sampled; ordered register pairs inside each block, the 8 DMA channel windows, the 32 mirrors and 7 window bases are enumerated completely.",
+            "Trusted: spec/mmio_fields.h (field classes and couplings transcribed from the *.md layouts), g++. Values restricted to 0/FFFF/5555/AAAA/single bits; DMA channel selector to its 3 documented bits.",
+            "DESIGN.md section 4, C12"),
     "C13": ("periph", "exhaustive enumeration of a bounded DMA configuration space on the real Dma/Ahbm, nested-loop reference model stepped per configuration, exact write log from the memory observer",
             "Every configuration of the declared size/step/mode/space/channel/overlap product is executed on the real code and compared element by element (ordered DSP write log, ordered external access logs, interrupt count) with a 40-line reference; this decides the property for the whole bounded configuration space, which is what a strided-copy bug needs to show up (sizes 0..3 reach every branch of the three nested counters).",
             "Trusted: the reference nested loop, the memory-observer hook, g++. Addresses are kept inside the data space (out-of-range strides are C18's subject); external side restricted to naturally aligned units and whole bursts as the statement says.",
